@@ -55,9 +55,79 @@ def base_line(mod, kind):
     return toks
 
 
-def rand_idx(rng, hi, view):
+def spec_at(mod, v, key, py):
+    """Spec predicate, computed from the module's global index columns only: the rows that `v.<key>(py)` denotes.
+    global scope: rows of v whose global <key> index is selected; local scope: rows whose dense rank within the parent
+    (cell: within the view; branch: within its cell; comp: within its branch) is selected. None = index form not covered."""
+    rows = [int(r) for r in v._nodes_in_view]
+    nd = mod.nodes
+    gi = {r: (int(nd.loc[r, "global_cell_index"]), int(nd.loc[r, "global_branch_index"]), int(nd.loc[r, "global_comp_index"])) for r in rows}
+    if isinstance(py, (int, np.integer)):
+        sel = {int(py)}
+    elif isinstance(py, (list, range)):
+        sel = set(int(x) for x in py)
+    elif isinstance(py, slice):
+        sel = set(range(len(nd))[py])
+    elif isinstance(py, str) and py == "all":
+        return rows
+    else:
+        return None
+    lvl = {"cell": 0, "branch": 1, "comp": 2}[key]
+    if v._scope == "global":
+        return [r for r in rows if gi[r][lvl] in sel]
+    parent = {r: gi[r][:lvl] for r in rows}
+    out = []
+    for r in rows:
+        sibs = sorted({gi[q][lvl] for q in rows if parent[q] == parent[r]})
+        if sibs.index(gi[r][lvl]) in sel:
+            out.append(r)
+    return out
+
+
+def battery(R, rng, mod, kind, base, n, lines, expected, metas, m):
+    """deterministic part: in global scope, narrow to every top-level element and select compartments / branches by slices and ranges
+    that span exactly that element, start inside it, or are open-ended; checked against spec_at and sent to the model"""
+    top = {"net": "cell", "cell": "branch"}.get(kind)
+    if top is None:
+        return
+    nd = mod.nodes
+    for i in sorted(set(int(x) for x in nd[f"global_{top}_index"]))[:4]:
+        mine = nd.index[nd[f"global_{top}_index"] == i].tolist()
+        lo, hi = int(min(mine)), int(max(mine)) + 1
+        for scope in ("global", "local"):
+            for (a, b) in ((lo, hi), (lo, None), (max(lo - 1, 0), hi + 2), (int(rng.integers(0, n)), int(rng.integers(0, n + 2)))):
+                for form in ("slice", "range"):
+                    if form == "range" and b is None:
+                        continue
+                    py = slice(a, b, 1) if form == "slice" else range(a, b, 1)
+                    tok = f"slice:{a}:{'_' if b is None else b}:1" if form == "slice" else f"range:{a}:{b}:1"
+                    ops = ["scope", scope[0], top, f"int:{i}", "comp", tok]
+                    outs = []
+                    R.count("battery")
+                    try:
+                        v1 = mod.scope(scope)
+                        outs.append(observe(v1))
+                        v2 = getattr(v1, top)(i)
+                        outs.append(observe(v2))
+                        want = spec_at(mod, v2, "comp", py)
+                        sdesc = dict(kind=kind, nodes=n, rows_in_view=[int(x) for x in v2._nodes_in_view], scope=scope, level="comp", index=tok, chain=ops)
+                        try:
+                            v3 = v2.comp(py)
+                        except tuple(ERR) as ex:
+                            if want:
+                                R.spec_fail(dict(kind="selection-refused", scope=scope, form=form), f"{scope} scope: .{top}({i}).comp({tok}) raises {type(ex).__name__} although it denotes rows {want}", sdesc, repr(ex)[:200])
+                            raise
+                        if [int(x) for x in v3._nodes_in_view] != want:
+                            R.spec_fail(dict(kind="selection-wrong-rows", scope=scope, form=form), f"{scope} scope: .{top}({i}).comp({tok}) shows {[int(x) for x in v3._nodes_in_view]}, denotes {want}", sdesc, [int(x) for x in v3._nodes_in_view])
+                        outs.append(observe(v3))
+                    except tuple(ERR) as ex:
+                        outs.append("err " + ERR[type(ex)])
+                    lines.append(" ".join(base + ["OPS"] + ops)); expected.append(outs); metas.append((m, kind, n, ops))
+
+
+def rand_idx(rng, hi, view, forms=("int", "int", "list", "range", "slice", "mask", "all")):
     """returns (python index, protocol token)"""
-    form = str(rng.choice(["int", "int", "list", "range", "slice", "mask", "all"]))
+    form = str(rng.choice(list(forms)))
     hi = max(hi, 1)
     if form == "int":
         k = int(rng.integers(0, hi + 1))
@@ -101,20 +171,44 @@ def run(args):
         base = base_line(mod, kind)
         n = mod.nodes.shape[0]
         levels = {"net": ["cell", "branch", "comp"], "cell": ["branch", "comp"], "branch": ["comp"]}[kind]
+        if m < 8:
+            battery(R, rng, mod, kind, base, n, lines, expected, metas, m)
         for c in range(nchains):
             v = mod
             ops, outs = [], []
             depth = int(rng.integers(1, 5))
+            tmpl = rng.random() < 0.5          # directed chains: a scope switch first, then narrowing selections with module-wide indices
+            if tmpl:
+                depth = int(rng.integers(3, 5))
             for step in range(depth):
                 choice = str(rng.choice(["at", "at", "at", "scope", "select", "loc", "group", "chan", "edge", "syn", "getitem", "iter"]))
+                if tmpl:
+                    choice = "scope" if step == 0 else str(rng.choice(["at", "at", "at", "select", "scope", "getitem"]))
                 try:
                     if choice == "at":
                         key = str(rng.choice(["cell", "branch", "comp"]))
-                        py, tok = rand_idx(rng, 4, v)
+                        hi = 4
+                        if getattr(v, "_scope", "local") == "global" and rng.random() < 0.7:
+                            # global scope: indices are the module's global indices, so draw them from the module's whole range
+                            hi = int(mod.nodes[f"global_{key}_index"].max()) + 1
+                        py, tok = rand_idx(rng, hi, v, ("int", "list", "range", "slice", "slice", "range") if tmpl else ("int", "int", "list", "range", "slice", "mask", "all"))
                         ops += [key, tok]
-                        v2 = getattr(v, key)(py)
+                        want = spec_at(mod, v, key, py)
+                        sdesc = dict(kind=kind, nodes=n, rows_in_view=[int(x) for x in v._nodes_in_view], scope=v._scope, level=key, index=tok, chain=list(ops))
+                        try:
+                            v2 = getattr(v, key)(py)
+                        except tuple(ERR) as ex:
+                            if want and key in levels and "does not support" not in str(ex):
+                                R.spec_fail(dict(kind="selection-refused", scope=v._scope, form=tok.split(":")[0]), f"{v._scope} scope: .{key}({tok}) on rows {sdesc['rows_in_view']} raises "
+                                            f"{type(ex).__name__} although it denotes rows {want}", sdesc, repr(ex)[:200])
+                            raise
+                        if want is not None and [int(x) for x in v2._nodes_in_view] != want:
+                            R.spec_fail(dict(kind="selection-wrong-rows", scope=v._scope, form=tok.split(":")[0]), f"{v._scope} scope: .{key}({tok}) on rows {sdesc['rows_in_view']} shows "
+                                        f"{[int(x) for x in v2._nodes_in_view]}, denotes {want}", sdesc, [int(x) for x in v2._nodes_in_view])
                     elif choice == "scope":
                         s = str(rng.choice(["global", "local"]))
+                        if tmpl and step == 0:
+                            s = "global" if rng.random() < 0.75 else "local"
                         ops += ["scope", s[0]]
                         v2 = v.scope(s)
                     elif choice == "select":
@@ -212,29 +306,54 @@ def run(args):
         n = mod.nodes.shape[0]
         rows = sorted(rng.choice(n, size=int(rng.integers(1, n + 1)), replace=False).tolist())
         view = mod.select(nodes=rows)
+        rest = [r for r in range(n) if r not in rows]
+        # a SECOND call through another view (disjoint from the first one in half of the cases): effects accumulate, nothing is lost
+        pool = rest if (rest and rng.random() < 0.5) else list(range(n))
+        rows2 = sorted(rng.choice(pool, size=int(rng.integers(1, len(pool) + 1)), replace=False).tolist())
+        view2 = mod.select(nodes=rows2)
+        union = sorted(set(rows) | set(rows2))
         for mut in ("set", "insert", "record", "stimulate", "clamp", "group", "move"):
             before = mod.nodes.copy(); R.evaluations += 1
-            desc = dict(kind=kind, nodes=n, rows=rows, mutator=mut)
+            desc = dict(kind=kind, nodes=n, rows=rows, rows2=rows2, mutator=mut)
             try:
+                second = None
                 if mut == "set":
                     view.set("radius", 7.25)
                     changed = mod.nodes.index[(mod.nodes["radius"] != before["radius"])].tolist()
                     expect = [r for r in rows if before.loc[r, "radius"] != 7.25]
+                    mid = mod.nodes.copy(); view2.set("radius", 3.5)
+                    second = (mod.nodes.index[(mod.nodes["radius"] != mid["radius"])].tolist(), rows2)
                 elif mut == "insert":
                     view.insert(CaL())
                     changed = mod.nodes.index[mod.nodes["CaL"].astype(bool)].tolist(); expect = rows
+                    view2.insert(CaL())
+                    second = (mod.nodes.index[mod.nodes["CaL"].astype(bool)].tolist(), union)
                 elif mut == "record":
                     mod.delete_recordings(); view.record("v", verbose=False)
                     changed = mod.recordings.rec_index.tolist(); expect = rows
+                    view2.record("v", verbose=False)
+                    second = (sorted(set(mod.recordings.rec_index.tolist())), union)
                 elif mut == "stimulate":
                     mod.delete_stimuli(); view.stimulate(jnp.ones(3), verbose=False)
                     changed = np.asarray(mod.external_inds["i"]).tolist(); expect = rows
+                    view2.stimulate(jnp.ones(3), verbose=False)
+                    second = (np.asarray(mod.external_inds["i"]).tolist(), rows + rows2)
                 elif mut == "clamp":
                     mod.delete_clamps(); view.clamp("v", jnp.ones(3), verbose=False)
                     changed = np.asarray(mod.external_inds["v"]).tolist(); expect = rows
+                    new2 = [r for r in rows2 if r not in rows]
+                    if new2:
+                        mod.select(nodes=new2).clamp("v", jnp.ones(3), verbose=False)
+                        second = (np.asarray(mod.external_inds["v"]).tolist(), rows + new2)
                 elif mut == "group":
                     view.add_to_group("newgroup")
                     changed = np.asarray(mod.groups["newgroup"]).tolist(); expect = rows
+                    view2.add_to_group("newgroup")
+                    second = (np.asarray(mod.groups["newgroup"]).tolist(), union)
+                    # the group view shows exactly the members, from the module and from any view
+                    gv = [int(x) for x in mod.newgroup._nodes_in_view]
+                    if gv != union:
+                        R.spec_fail(dict(kind="group-view", mutator=mut), f"group built from rows {rows} then {rows2} shows {gv}", desc, gv)
                 else:
                     if "x" not in mod.nodes.columns:
                         continue
@@ -246,8 +365,13 @@ def run(args):
                     changed, expect = moved, br
                 if sorted(changed) != sorted(expect):
                     R.spec_fail(dict(kind="mutator-frame", mutator=mut), f"{mut} through a view of rows {rows} affected {sorted(changed)}", desc, sorted(changed))
+                if second is not None and sorted(second[0]) != sorted(second[1]):
+                    R.spec_fail(dict(kind="mutator-frame-second-call", mutator=mut), f"{mut} through a view of rows {rows} and then through a view of rows {rows2}: "
+                                f"affected {sorted(second[0])}, expected {sorted(second[1])}", desc, sorted(second[0]))
             except Exception as ex:
                 R.count(f"mutator-raised:{mut}:{type(ex).__name__}")
+                R.spec_fail(dict(kind="mutator-raises", mutator=mut, err=type(ex).__name__), f"{mut} through a view of rows {rows} (then rows {rows2}) raises "
+                            f"{type(ex).__name__}: {str(ex)[:120]}", desc, repr(ex)[:200])
     # -------------------------------------------------- witness of known finding N8 (replayed on every run)
     comp = jx.Compartment()
     wc = jx.Cell([jx.Branch([comp]), jx.Branch([comp])], parents=[-1, 0])
